@@ -51,6 +51,25 @@ func genC08(tier string, r *rng, emit func(string)) {
 			}
 		}
 	}
+	// (1b) every ordered element type with negatives and ties: flat and per-axis arg-reductions and
+	//      the three folds (the flat arg kernels and the reduction kernels are generated per type)
+	for _, dt := range []string{"i", "i8", "i16", "i32", "i64", "f32", "f64", "u8", "u16", "u32", "u64", "u"} {
+		base := -3
+		if dt[0] == 'u' {
+			base = 0
+		}
+		for _, sh := range [][]int{{6}, {2, 3}} {
+			pre := fmt.Sprintf("prog %s new:rm:%s:%d;setat:0:%s:%d", dt, fints(sh), base, fints(make([]int, len(sh))), base+4)
+			for ax := -1; ax < len(sh); ax++ {
+				emit(fmt.Sprintf("%s;arg:max:0:%d", pre, ax))
+				emit(fmt.Sprintf("%s;arg:min:0:%d", pre, ax))
+			}
+			for _, k := range []string{"sum", "min", "max"} {
+				emit(fmt.Sprintf("%s;reduce:%s:0:%d", pre, k, len(sh)-1))
+				emit(fmt.Sprintf("%s;reduce:%s:0:0", pre, k))
+			}
+		}
+	}
 	// (2) operand layouts as in C06, values with ties (tokens folded modulo 3 through a min with
 	// a scalar is not available: ties come from setat), random axis subsets
 	m := 6000
